@@ -11,11 +11,7 @@ def py_parse(word):         # independent reading of the specification (docs/spe
     return -v if len(word) % 2 == 0 else v
 
 
-@monitor('c08_codec')
-def _codec(case, a):
-    """direct monitor on the implementation's two functions"""
-    from pbhhg_py import parse
-    kind, x = case.data
+def _codec_one(parse, kind, x):
     if kind == 'int':
         w = parse.encode_number(x)
         if parse.parse_number(w) != x or py_parse(w) != x:
@@ -31,6 +27,18 @@ def _codec(case, a):
     return None
 
 
+@monitor('c08_codec')
+def _codec(case, a):
+    """direct monitor on the implementation's two functions; `data` = (kind, [items…]) — a batch"""
+    from pbhhg_py import parse
+    kind, items = case.data
+    for x in items:
+        why = _codec_one(parse, kind, x)
+        if why:
+            return why
+    return None
+
+
 def pad(word, k):
     return word + "ㄱ" * (2 * k)
 
@@ -38,16 +46,16 @@ def pad(word, k):
 def cases(rng, tier):
     # (1) the two functions: exhaustive small ranges + random big integers; checked against the
     #     implementation directly and against the model driver in bulk below
-    lim = 2 ** 11 if tier == 'quick' else 2 ** 16
+    lim = 2 ** 11 if tier == 'quick' else 2 ** 20
     ints = list(range(-lim, lim + 1)) + [rng.randint(-2 ** 4096, 2 ** 4096) for _ in range(200)] + \
            [s * 8 ** k + d for k in range(1, 40) for s in (1, -1) for d in (-1, 0, 1)]
-    for x in ints:
-        yield Case(program='ㄱ', tag='codec-int', monitor='c08_codec', data=('int', x), skip_model=True, nontrivial=abs(x) > 7)
-    maxlen = 4 if tier == 'quick' else 6
-    for n in range(1, maxlen + 1):
-        for w in itertools.product(JAMO, repeat=n):
-            yield Case(program='ㄱ', tag='codec-word', monitor='c08_codec', data=('word', "".join(w)), skip_model=True,
-                       nontrivial=n > 1)
+    B = 512
+    for i in range(0, len(ints), B):
+        yield Case(program='ㄱ', tag='codec-int', monitor='c08_codec', data=('int', ints[i:i + B]), skip_model=True, nontrivial=True, timeout=120)
+    maxlen = 4 if tier == 'quick' else 7
+    words = ["".join(w) for n in range(1, maxlen + 1) for w in itertools.product(JAMO, repeat=n)]
+    for i in range(0, len(words), B):
+        yield Case(program='ㄱ', tag='codec-word', monitor='c08_codec', data=('word', words[i:i + B]), skip_model=True, nontrivial=True, timeout=120)
     # (2) spellings are interchangeable wherever a literal is used
     n = 300 if tier == 'quick' else 5000
     g = gen.Gen(rng, max_depth=3)
@@ -127,8 +135,8 @@ SPEC = {
     'lean': ['C08', 'Tables'],
     'cases': cases,
     'stream': 'C08 spelling stream',
-    'rule': 'parse_number / encode_number: exhaustive |n| ≤ 2^11 (quick) / 2^16 (thorough), all digit words up to '
-            'length 4 / 6, 200 random integers up to 2^4096, powers of 8 ± 1; programs in which one literal is replaced by '
+    'rule': 'parse_number / encode_number (checked in batches: one case = 512 integers or words): exhaustive |n| ≤ 2^11 (quick) / 2^20 (thorough), all digit words up to '
+            'length 4 / 7, 200 random integers up to 2^4096, powers of 8 ± 1; programs in which one literal is replaced by '
             'a zero-padded spelling in each role (value, arity, nesting index, function reference, built-in name, module '
             'path, file mode / command, list index) must behave identically; every spelling of zero of either parity (ㄱㄱ … ㄱ×7 / ×13) in every role where a zero can stand (value, closure / built-in arity, argument position, nesting index, function reference, built-in name, list index, module path, file command); non-trivial = multi-digit word / |n| > 7',
     'trusted': ["the harness's own reading of docs/spec.md:31-44 (py_parse) used as the monitor's oracle"],
